@@ -632,12 +632,12 @@ class FmtStr:
             # the results are text, not escape-coded strings: not to be parsed
             if isinstance(result, str):
                 return FmtStr(Chunk(result, self.shared_atts))
-            elif isinstance(result, list):
+            elif isinstance(result, (list, tuple)):
                 shared = self.shared_atts
-                return [
+                return type(result)(
                     FmtStr(Chunk(x, shared)) if isinstance(x, str) else x
                     for x in result
-                ]
+                )
             else:
                 return result
 
